@@ -70,6 +70,20 @@ FamLimits ==
     : fs \in { [j \in 1..m |-> FilePart(Name(j), sz[j])] : sz \in [1..m -> SizeSet] } }
     : o \in LimOpts } : <<s, m>> \in {3, 4} \X (0..MaxLim) }
 
+\* duplicate family: the same file field name in two or three file parts (different sizes), alone and combined
+\* with entries whose file is missing.  Entry j is bound to slot j; mult[j] = number of parts named Name(j).
+RECURSIVE DupFrom(_, _, _)
+DupFrom(k, mult, j) == IF j > k THEN <<>> ELSE [t \in 1..mult[j] |-> FilePart(Name(j), 10 * j + t)] \o DupFrom(k, mult, j + 1)
+DupParts(k, mult) == DupFrom(k, mult, 1)
+Rots(P) == {Rot(P, r) : r \in 0..(Len(P) - 1)} \cup {Rot(Rev(P), r) : r \in 0..(Len(P) - 1)}
+FamDup ==
+  UNION { UNION {
+      { Case("dup", OpsOf(s), MapOf(EntriesOf(s, Len(Scen[s].slots), [q \in 1..Len(Scen[s].slots) |-> q])), body, NoOpts) :
+          body \in IF s = 2 THEN Rots(<<OpsPart, MapPart>> \o DupParts(Len(Scen[s].slots), mult) \o ex)
+                   ELSE TwoOrders(<<OpsPart, MapPart>> \o DupParts(Len(Scen[s].slots), mult) \o ex) }
+    : mult \in {m \in [1..Len(Scen[s].slots) -> 0..3] : (\E j \in DOMAIN m : m[j] >= 2) /\ (\A j \in DOMAIN m : m[j] = 3 => j = 1)},
+      ex \in IF s = 2 THEN {<<>>, <<FilePart("9", 7), FilePart("9", 8)>>} ELSE {<<>>} } : s \in {2, 3, 4} }
+
 \* structure family: parts missing, map not JSON
 StructBase == Case("struct", OpsOf(2), MapOf(EntriesOf(2, 1, <<1, 1>>)), <<OpsPart, MapPart, FilePart("0", 5)>>, NoOpts)
 Without(body, t) == SelectSeq(body, LAMBDA p : p.t # t)
@@ -89,7 +103,7 @@ FamBadPath ==
   \cup { Case("badpath", OpsOf(3), MapOf(<<[name |-> "0", paths |-> <<<<"variables", "files", "7">>, <<"variables", "files", "1">>>>]>>), <<OpsPart, MapPart, FilePart("0", 4)>>, NoOpts) }
   \cup { Case("badpath", OpsOf(4), MapOf(<<[name |-> "0", paths |-> <<p, <<"1", "variables", "y">>>>]>>), <<OpsPart, MapPart, FilePart("0", 4)>>, NoOpts) : p \in BadPathsBatch }
 
-AllCases == FamBind \cup FamPresence \cup FamLimits \cup FamStruct \cup FamBadPath
+AllCases == FamBind \cup FamPresence \cup FamLimits \cup FamDup \cup FamStruct \cup FamBadPath
 
 UInit == \E c \in AllCases : UInitFor(c)
 USpec    == UInit /\ [][UNext]_uvars /\ WF_uvars(UNext)
@@ -104,4 +118,7 @@ OrderFree == \A c \in FamStruct \cup FamBadPath : \A b \in TwoOrders(c.body) :
                 LET d == [c EXCEPT !.body = b] IN Causes(d) = Causes(c) /\ Optional(d) = Optional(c) /\ Bound(d) = Bound(c)
 \* binding touches exactly the mapped slots: every slot owned by a present file holds that file, every other slot is still null
 ASSUME OrderFree
+\* a duplicate part name never stands in for a missing one: a dup case is accepted iff every entry name occurs
+DupLaw == \A c \in FamDup : (Causes(c) = {}) <=> (\A e \in 1..Len(c.map.entries) : HasFile(c.body, c.map.entries[e].name))
+ASSUME DupLaw
 =============================================================================
